@@ -41,6 +41,42 @@ M = [
  ('m_c01_or_and', 'C01', 'cylc/flow/prerequisite.py',
   "        if not self.conditional_expression:\n            return all(self._satisfied.values())",
   "        if not self.conditional_expression:\n            return any(self._satisfied.values())"),
+ ('m_c06_queue_ignores_held', 'C06', 'cylc/flow/task_queues/independent.py',
+  "            if itask.state.is_held:\n                held.append(itask)",
+  "            if False and itask.state.is_held:\n                held.append(itask)"),
+ ('m_c06_future_hold', 'C06', 'cylc/flow/task_pool.py',
+  "            if (name, point) in self.tasks_to_hold:",
+  "            if False and (name, point) in self.tasks_to_hold:"),
+ ('m_c06_no_restore', 'C06', 'cylc/flow/scheduler.py',
+  "        self.pool.load_db_tasks_to_hold()",
+  "        pass  # self.pool.load_db_tasks_to_hold()"),
+ ('m_c45_abs_spawn', 'C45', 'cylc/flow/task_pool.py',
+  "                itask.tdef.has_abs_triggers\n                and itask.state.prerequisites_are_not_all_satisfied()",
+  "                False and itask.tdef.has_abs_triggers\n                and itask.state.prerequisites_are_not_all_satisfied()"),
+ ('m_c46_prestart', 'C46', 'cylc/flow/task_trigger.py',
+  "                    prereq_offset_point < tdef.start_point\n                    and point >= tdef.start_point",
+  "                    False and prereq_offset_point < tdef.start_point\n                    and point >= tdef.start_point"),
+ ('m_c21_nonatomic', 'C21', 'cylc/flow/rundb.py',
+  "            for stmt, stmt_args in sql_queue:\n                self._execute_stmt(stmt, stmt_args)",
+  "            for stmt, stmt_args in sql_queue:\n                self._execute_stmt(stmt, stmt_args)\n                self.conn.commit()"),
+ ('m_c42_size', 'C42', 'cylc/flow/subprocpool.py',
+  "        while self.queuings and len(self.runnings) < self.size:",
+  "        while self.queuings and len(self.runnings) <= self.size:"),
+ ('m_c42_timeout', 'C42', 'cylc/flow/subprocpool.py',
+  "            if time() > ctx.timeout:",
+  "            if False and time() > ctx.timeout:"),
+ ('m_c44_dbperm', 'C44', 'cylc/flow/workflow_db_mgr.py',
+  "        os.chmod(self.pri_path, PERM_PRIVATE)",
+  "        pass"),
+ ('m_c43_stopcp_clear', 'C43', 'cylc/flow/scheduler.py',
+  "            self.workflow_db_mgr.put_workflow_stop_cycle_point(None)\n\n        return True",
+  "            pass\n\n        return True"),
+ ('m_c19_holdpoint', 'C19', 'cylc/flow/scheduler.py',
+  "                and self.options.holdcp is None\n            ):\n                self.options.holdcp = value",
+  "                and self.options.holdcp is None\n            ):\n                pass"),
+ ('m_c20_remove_commit', 'C20', 'cylc/flow/task_pool.py',
+  "            self.workflow_db_mgr.put_update_task_state(itask)\n\n            level = logging.DEBUG",
+  "            level = logging.DEBUG"),
  ('m_c09_started_back', 'C09', 'cylc/flow/task_events_mgr.py',
   "            if flag == self.FLAG_RECEIVED and itask.state.is_gt(\n                TASK_STATUS_RUNNING\n            ):\n                # Already running.\n                return True",
   "            if False:\n                # Already running.\n                return True"),
@@ -66,7 +102,8 @@ def main():
             continue
         try:
             open(full, 'w').write(src.replace(old, new))
-            r = run(f'timeout 600 {VERIF}/bin/verif check {prop} --tier quick -n 400', cwd=VERIF)
+            n = {'C20': 60, 'C21': 60, 'C44': 3, 'C42': 3000}.get(prop, 400)
+            r = run(f'timeout 900 {VERIF}/bin/verif check {prop} --tier quick -n {n}', cwd=VERIF)
             caught = r.returncode == 1 and 'VIOLATION' in r.stdout
             rules = sorted({l.split('-')[-1].replace('.json', '') for l in r.stdout.splitlines() if l.startswith('VIOLATION')})
             print(f'{name} [{prop}]: exit {r.returncode} {"CAUGHT" if caught else "MISSED"} {rules}')
